@@ -438,7 +438,7 @@ func run(h *History, st stats, memo *exhMemo) (f *fail) {
 			if len(stk) > 3000 {
 				stk = stk[:3000]
 			}
-			f = &fail{Sig: "C02:" + cur + ":panic:" + mon.PanicSite(stk), What: fmt.Sprintf("panic: %v", p), Step: step, Stack: stk}
+			f = &fail{Sig: "C02:" + opEntry[cur] + ":panic:" + mon.PanicSite(stk), What: fmt.Sprintf("panic during %s: %v", cur, p), Step: step, Stack: stk}
 		}
 	}()
 	mem, _ := db.NewMemDatabase()
@@ -565,13 +565,16 @@ func addKey(set map[string]bool, out *[][]byte, k []byte, max int) {
 	*out = append(*out, append([]byte{}, k...))
 }
 
-func tinyUniverse(rng *rand.Rand, set map[string]bool, out *[][]byte, max int) {
+func tinyUniverse(rng *rand.Rand, big bool, set map[string]bool, out *[][]byte, max int) {
 	alpha := alphabets[rng.Intn(len(alphabets))]
 	if rng.Intn(4) == 0 {
 		alpha = []byte{byte(rng.Intn(16)), byte(rng.Intn(16)), byte(rng.Intn(16))}
 	}
 	maxLen := 1 + rng.Intn(3)
 	n := 4 + rng.Intn(29)
+	if big {
+		maxLen, n = 3, 40+rng.Intn(25)
+	}
 	for tries := 0; tries < 6*n && n > 0; tries++ {
 		l := rng.Intn(maxLen + 1)
 		if l == 0 && rng.Intn(3) != 0 {
@@ -665,23 +668,33 @@ func longUniverse(rng *rand.Rand, L int, n int, set map[string]bool, out *[][]by
 	}
 }
 
-func genUniverse(rng *rand.Rand, kind int) [][]byte {
+func genUniverse(rng *rand.Rand, kind int, big bool) [][]byte {
 	set := map[string]bool{}
 	var out [][]byte
+	nLong := 4 + rng.Intn(28)
+	if big {
+		nLong = 40 + rng.Intn(25)
+	}
 	switch kind {
 	case 0:
-		tinyUniverse(rng, set, &out, 64)
+		tinyUniverse(rng, big, set, &out, 64)
 	case 1:
 		prefixUniverse(rng, set, &out, 48)
+		if big {
+			tinyUniverse(rng, false, set, &out, 64)
+		}
 	case 2:
-		longUniverse(rng, 20, 4+rng.Intn(28), set, &out, 64)
+		longUniverse(rng, 20, nLong, set, &out, 64)
 	case 3:
-		longUniverse(rng, 32, 4+rng.Intn(28), set, &out, 64)
+		longUniverse(rng, 32, nLong, set, &out, 64)
 	default:
-		tinyUniverse(rng, set, &out, 12)
+		tinyUniverse(rng, false, set, &out, 12)
 		prefixUniverse(rng, set, &out, 24)
 		longUniverse(rng, 20, 2+rng.Intn(6), set, &out, 32)
 		longUniverse(rng, 32, 2+rng.Intn(6), set, &out, 40)
+		if big {
+			longUniverse(rng, 32, 30, set, &out, 64)
+		}
 	}
 	if len(out) < 2 {
 		addKey(set, &out, []byte{0x12}, 64)
@@ -698,13 +711,18 @@ var phaseWeights = map[string][]int{
 }
 var opCounter = map[string]string{"put": "op_put", "del": "op_del", "pute": "op_pute", "get": "op_get", "hash": "op_hash", "commit": "op_commit",
 	"rdisk": "op_rdisk", "rmem": "op_rmem", "limit": "op_limit", "cap": "op_cap", "check": "op_check"}
+
+// opEntry names the API entry point an op exercises (used in panic signatures).
+var opEntry = map[string]string{"init": "NewTrie", "put": "TryUpdate", "del": "TryDelete", "pute": "TryUpdate", "get": "TryGet", "hash": "Hash",
+	"commit": "Commit", "rdisk": "reopen", "rmem": "reopen", "limit": "SetCacheLimit", "cap": "Cap", "check": "check", "final": "check"}
 var opNames = []string{"put", "del", "pute", "get", "hash", "commit", "rdisk", "rmem", "limit", "cap"}
 var phaseNames = []string{"grow", "shrink", "churn"}
 
 func genRandom(seed int64, idx int) History {
 	rng := mon.NewRand(seed, "c02-random", idx)
 	kind := idx % 5
-	uni := genUniverse(rng, kind)
+	big := idx%8 == 7
+	uni := genUniverse(rng, kind, big)
 	pool := make([][]byte, 2+rng.Intn(5))
 	for i := range pool {
 		pool[i] = genValue(rng)
@@ -722,7 +740,7 @@ func genRandom(seed int64, idx int) History {
 		return l
 	}
 	nOps := 20 + rng.Intn(61)
-	if idx%8 == 7 { // long histories: reach the 64-live-key bound, deep cache generations
+	if big { // long histories over up to 64 keys: reach the 64-live-key bound, deep cache generations
 		nOps = 100 + rng.Intn(201)
 	}
 	phase := "grow"
